@@ -57,3 +57,278 @@ Proof.
   intros Hc. unfold tfo. rewrite tfi_spec by by apply rev_g_closed.
   split; intros (n & Hn & k & Hk); exists n; (split; [done|]); exists k; by apply (path_rev c).
 Qed.
+
+(* fanin(ns) / fanout(ns) are the direct predecessors / successors *)
+Lemma elem_of_fanout_l c ns y : y ∈ fanout_l c ns ↔ ∃ n, n ∈ ns ∧ n ∈ fanin c y.
+Proof.
+  unfold fanout_l. rewrite elem_of_union_list. setoid_rewrite <- fanout_fanin. split.
+  - intros (X & (n & -> & Hn)%elem_of_list_fmap & Hy). eauto.
+  - intros (n & Hn & Hy). exists (fanout c n). split; [|done]. apply elem_of_list_fmap. eauto.
+Qed.
+
+(* ---- cycles are decidable through tfi ---- *)
+Lemma has_cycle_tfi c : closed c → (has_cycle c ↔ ∃ n, n ∈ dom c ∧ n ∈ tfi c [n]).
+Proof.
+  intros Hc. split.
+  - intros (u & Hu). exists u. split; [by eapply reach_end_dom, reach1_reach|]. apply tfi_spec; [done|]. exists u. split; [by left|done].
+  - intros (n & _ & (n' & ->%elem_of_list_singleton & Hr)%tfi_spec); [|done]. by exists n.
+Qed.
+Lemma has_cycle_dec c : closed c → has_cycle c ∨ ¬ has_cycle c.
+Proof.
+  intros Hc. destruct (decide (set_Exists (λ n, n ∈ tfi c [n]) (dom c))) as [H|H].
+  - left. apply has_cycle_tfi; [done|]. destruct H as (n & ? & ?). eauto.
+  - right. intros (n & ? & ?)%has_cycle_tfi; [|done]. apply H. by exists n.
+Qed.
+
+(* ---- startpoints(ns) / endpoints(ns) ---- *)
+Lemma startpoints_dom c x : x ∈ startpoints c → x ∈ dom c.
+Proof. intros (i & Hi & _)%elem_of_of_type. apply elem_of_dom. eauto. Qed.
+Theorem startpoints_of_spec c ns x : closed c → ns ≠ [] →
+  (x ∈ startpoints_of c ns ↔ x ∈ startpoints c ∧ ∃ n, n ∈ ns ∧ reach c x n).
+Proof.
+  intros Hc Hne. unfold startpoints_of. destruct ns as [|n0 ns']; [done|]. set (ns := n0 :: ns').
+  rewrite elem_of_intersection, elem_of_union, elem_of_list_to_set, tfi_spec by done. split.
+  - intros [[Hx|(n & Hn & Hr)] Hs]; (split; [done|]).
+    + exists x. split; [done|]. by apply reach_refl, startpoints_dom.
+    + exists n. split; [done|]. by apply reach1_reach.
+  - intros [Hs (n & Hn & [[-> _]|Hr]%reach_case)]; (split; [|done]); [by left|right; eauto].
+Qed.
+Lemma endpoints_dom c x : x ∈ endpoints c → x ∈ dom c.
+Proof. intros [(i & Hi & _)%elem_of_outputs|(i & Hi & _)%elem_of_of_type]%elem_of_union; apply elem_of_dom; eauto. Qed.
+Theorem endpoints_of_spec c ns x : closed c → ns ≠ [] →
+  (x ∈ endpoints_of c ns ↔ x ∈ endpoints c ∧ ∃ n, n ∈ ns ∧ reach c n x).
+Proof.
+  intros Hc Hne. unfold endpoints_of. destruct ns as [|n0 ns']; [done|]. set (ns := n0 :: ns').
+  rewrite elem_of_intersection, elem_of_union, elem_of_list_to_set, tfo_spec by done. split.
+  - intros [[Hx|(n & Hn & Hr)] Hs]; (split; [done|]).
+    + exists x. split; [done|]. by apply reach_refl, endpoints_dom.
+    + exists n. split; [done|]. by apply reach1_reach.
+  - intros [Hs (n & Hn & [[-> _]|Hr]%reach_case)]; (split; [|done]); [by left|right; eauto].
+Qed.
+
+(* ---- reconvergent_fanout_nodes ---- *)
+Lemma cone_spec c a m : closed c → a ∈ dom c → (m ∈ cone (rev_g c) a ↔ reach c a m).
+Proof.
+  intros Hc Ha. unfold cone. rewrite elem_of_union, elem_of_singleton. fold (tfo c [a]). rewrite tfo_spec, reach_case by done. split.
+  - intros [->|(n & ->%elem_of_list_singleton & Hr)]; [by left|by right].
+  - intros [[-> _]|Hr]; [by left|right]. exists a. split; [by left|done].
+Qed.
+Theorem reconvergent_spec c g : closed c →
+  (g ∈ reconvergent c ↔ ∃ a b m, a ≠ b ∧ a ∈ fanout c g ∧ b ∈ fanout c g ∧ reach c a m ∧ reach c b m).
+Proof.
+  intros Hc. unfold reconvergent. cbv zeta. rewrite elem_of_filter. unfold reconv_at. cbv zeta. split.
+  - intros [H Hg]. apply existsb_exists in H as (p & Hp & H). apply existsb_exists in H as (q & Hq & H).
+    rewrite <- elem_of_list_In in Hp, Hq.
+    apply elem_of_list_fmap in Hp as (a & -> & Ha). apply elem_of_list_fmap in Hq as (b & -> & Hb).
+    apply elem_of_elements in Ha, Hb. simpl in H.
+    apply andb_true_iff in H as [Hab Hne]. apply negb_true_iff, bool_decide_eq_false in Hab, Hne.
+    apply set_choose_L in Hne as [m Hm]. apply elem_of_intersection in Hm as [H1 H2].
+    exists a, b, m. split; [done|]. split; [done|]. split; [done|].
+    split; apply (cone_spec c); try done; by eapply fanout_dom.
+  - intros (a & b & m & Hab & Ha & Hb & Hra & Hrb). split.
+    + apply existsb_exists. exists (a, cone (rev_g c) a). split.
+      { apply elem_of_list_In, elem_of_list_fmap. exists a. split; [done|by apply elem_of_elements]. }
+      apply existsb_exists. exists (b, cone (rev_g c) b). split.
+      { apply elem_of_list_In, elem_of_list_fmap. exists b. split; [done|by apply elem_of_elements]. }
+      simpl. apply andb_true_iff. split; apply negb_true_iff, bool_decide_eq_false; [done|].
+      intros He. assert (m ∈ cone (rev_g c) a ∩ cone (rev_g c) b) as Hm.
+      { apply elem_of_intersection. split; apply cone_spec; try done; by eapply fanout_dom. }
+      rewrite He in Hm. by apply elem_of_empty in Hm.
+    + apply fanout_fanin in Ha. by eapply fanin_closed.
+Qed.
+
+(* ---- topological order checker ---- *)
+Lemma topo_go_sound c seen l : topo_go c seen l = true →
+  ∀ l1 n l2, l = l1 ++ n :: l2 → fanin c n ⊆ seen ∪ list_to_set l1.
+Proof.
+  revert seen. induction l as [|b l IH]; intros seen H l1 n l2 E; [destruct l1; discriminate|].
+  simpl in H. apply andb_true_iff in H as [H1 H2]. apply bool_decide_eq_true in H1.
+  destruct l1 as [|b' l1]; simplify_eq/=.
+  - clear -H1. set_solver.
+  - specialize (IH _ H2 l1 n l2 eq_refl). clear -IH. set_solver.
+Qed.
+Theorem topo_order_sound c l : is_topo_order c l = true →
+  NoDup l ∧ (∀ x, x ∈ l ↔ x ∈ dom c) ∧ ∀ l1 n l2, l = l1 ++ n :: l2 → ∀ f, f ∈ fanin c n → f ∈ l1.
+Proof.
+  unfold is_topo_order, enum_ok. rewrite andb_true_iff, bool_decide_eq_true. intros [[Hnd Hset] Hgo].
+  split; [done|]. split; [intros x; by rewrite <- Hset, elem_of_list_to_set|].
+  intros l1 n l2 E f Hf. pose proof (topo_go_sound _ _ _ Hgo l1 n l2 E f Hf) as H.
+  apply elem_of_union in H as [H|H]; [by apply elem_of_empty in H|by apply elem_of_list_to_set in H].
+Qed.
+
+(* ---- the longest-path table ---- *)
+Lemma lmax_ge (g : string → nat) l x : x ∈ l → g x ≤ foldr (λ f acc, max acc (g f)) 0 l.
+Proof.
+  induction l as [|a l IH]; intros Hx; [by apply elem_of_nil in Hx|]. simpl.
+  apply elem_of_cons in Hx as [->|Hx]; [lia|]. specialize (IH Hx). lia.
+Qed.
+Lemma lmax_attained (g : string → nat) l : l ≠ [] → ∃ x, x ∈ l ∧ foldr (λ f acc, max acc (g f)) 0 l = g x.
+Proof.
+  induction l as [|a l IH]; intros Hne; [done|]. simpl. destruct l as [|b l].
+  - exists a. split; [by left|]. simpl. lia.
+  - destruct IH as (x & Hx & E); [done|]. rewrite E.
+    destruct (decide (g a ≤ g x)); [exists x; split; [by right|lia]|exists a; split; [by left|lia]].
+Qed.
+Lemma max_over_ge g X f : f ∈ X → g f ≤ max_over g X.
+Proof. intros Hf. apply lmax_ge. by apply elem_of_elements. Qed.
+Lemma max_over_attained g (X : gset string) : X = ∅ ∧ max_over g X = 0 ∨ ∃ f, f ∈ X ∧ max_over g X = g f.
+Proof.
+  unfold max_over. destruct (decide (X = ∅)) as [->|Hne]; [left; by rewrite elements_empty|right].
+  destruct (lmax_attained g (elements X)) as (x & Hx & E).
+  { intros E. apply Hne. apply elements_empty_inv in E. by apply leibniz_equiv. }
+  exists x. split; [by apply elem_of_elements|done].
+Qed.
+
+Definition D (c : circuit) (k : nat) (n : string) : nat := lvl (Nat.iter k (relax c) ∅) n.
+Lemma D_0 c n : D c 0 n = 0.
+Proof. unfold D, lvl. simpl. by rewrite lookup_empty. Qed.
+Lemma D_S c k n : D c (S k) n = match c !! n with Some i => max_over (λ f, S (D c k f)) (n_fi i) | None => 0 end.
+Proof. unfold D, lvl. simpl. unfold relax at 1. rewrite lookup_fmap. by destruct (c !! n). Qed.
+Lemma D_exists c k : closed c → ∀ n, n ∈ dom c → ∃ u, path c u n (D c k n).
+Proof.
+  intros Hc. induction k as [|k IH]; intros n Hn.
+  - rewrite D_0. exists n. by apply path_0.
+  - rewrite D_S. pose proof Hn as Hn'. apply elem_of_dom in Hn' as [i Hi]. rewrite Hi.
+    destruct (max_over_attained (λ f, S (D c k f)) (n_fi i)) as [[_ E]|(f & Hf & E)]; rewrite E.
+    + exists n. by apply path_0.
+    + destruct (IH f) as [u Hu]; [by eapply Hc|]. exists u. eapply path_snoc; [done|]. apply elem_of_fanin. eauto.
+Qed.
+Lemma D_upper c k : closed c → ∀ u n j, path c u n j → j ≤ k → j ≤ D c k n.
+Proof.
+  intros Hc. induction k as [|k IH]; intros u n j Hp Hj; [lia|]. destruct j as [|j]; [lia|].
+  apply path_snoc_inv in Hp as (w & Hw & Hf); [|done]. apply elem_of_fanin in Hf as (i & Hi & Hf).
+  rewrite D_S, Hi. pose proof (max_over_ge (λ f, S (D c k f)) (n_fi i) w Hf) as H. simpl in H.
+  specialize (IH u w j Hw). lia.
+Qed.
+(* on an acyclic graph the table entry is the length of a longest path into the node *)
+Theorem depth_table_spec c n : closed c → ¬ has_cycle c → n ∈ dom c →
+  (∃ u, path c u n (lvl (depth_table c) n)) ∧ ∀ u k, path c u n k → k ≤ lvl (depth_table c) n.
+Proof.
+  intros Hc Hac Hn. split; [by apply (D_exists c (size c))|]. intros u k Hp.
+  pose proof (path_bound _ _ _ _ Hc Hac Hp). apply (D_upper c (size c) Hc u n k Hp). lia.
+Qed.
+Lemma check_table_acyclic c r : check_table c r = true → acyclic c.
+Proof.
+  unfold check_table. rewrite bool_decide_eq_true. intros H. exists (lvl r). intros n i f Hn Hf. exact (H n i Hn f Hf).
+Qed.
+Theorem is_cyclic_spec c : closed c → (is_cyclic c = true ↔ has_cycle c).
+Proof.
+  intros Hc. unfold is_cyclic. rewrite negb_true_iff. split.
+  - intros Hchk. destruct (has_cycle_dec c Hc) as [|Hac]; [done|]. exfalso.
+    assert (check_table c (depth_table c) = true) as Ht; [|congruence].
+    unfold check_table. apply bool_decide_eq_true. intros n i Hn f Hf.
+    assert (f ∈ dom c) as Hfd by (eapply Hc; eauto).
+    destruct (D_exists c (size c) Hc f Hfd) as [u Hu].
+    assert (path c u n (S (D c (size c) f))) as Hp by (eapply path_snoc; [done|]; apply elem_of_fanin; eauto).
+    pose proof (path_bound _ _ _ _ Hc Hac Hp).
+    pose proof (D_upper c (size c) Hc u n _ Hp). unfold D in *. unfold depth_table. lia.
+  - intros Hcy. destruct (check_table c (depth_table c)) eqn:E; [|done].
+    destruct (acyclic_no_cycle c); [by eapply check_table_acyclic|done].
+Qed.
+
+(* fanin_depth / fanout_depth (maximum): rejection of cyclic graphs, and the longest path into / out of the node set *)
+Theorem fanin_depth_spec c ns d : closed c → ns ≠ [] → Forall (.∈ dom c) ns →
+  (has_cycle c → fanin_depth c ns = Raise ValueError) ∧
+  (¬ has_cycle c → fanin_depth c ns = Ok d →
+     (∃ u n, n ∈ ns ∧ path c u n d) ∧ ∀ u n k, n ∈ ns → path c u n k → k ≤ d).
+Proof.
+  intros Hc Hne Hdom. unfold fanin_depth. split.
+  - intros Hcy. apply is_cyclic_spec in Hcy; [|done]. by rewrite Hcy.
+  - intros Hac. destruct (is_cyclic c) eqn:E; [apply is_cyclic_spec in E; done|].
+    destruct ns as [|n0 ns']; [done|]. intros Hd. cbv zeta in Hd.
+    assert (d = foldr (λ n acc, max acc (lvl (depth_table c) n)) 0 (n0 :: ns')) as -> by congruence. clear Hd.
+    rewrite Forall_forall in Hdom. split.
+    + destruct (lmax_attained (lvl (depth_table c)) (n0 :: ns') Hne) as (n & Hn & ->).
+      destruct (depth_table_spec c n Hc Hac (Hdom n Hn)) as [[u Hu] _]. eauto.
+    + intros u n k Hn Hp. destruct (depth_table_spec c n Hc Hac (Hdom n Hn)) as [_ Hub].
+      pose proof (lmax_ge (lvl (depth_table c)) (n0 :: ns') n Hn). specialize (Hub u k Hp). lia.
+Qed.
+Theorem fanout_depth_spec c ns d : closed c → ns ≠ [] → Forall (.∈ dom c) ns →
+  (has_cycle c → fanout_depth c ns = Raise ValueError) ∧
+  (¬ has_cycle c → fanout_depth c ns = Ok d →
+     (∃ u n, n ∈ ns ∧ path c n u d) ∧ ∀ u n k, n ∈ ns → path c n u k → k ≤ d).
+Proof.
+  intros Hc Hne Hdom. unfold fanout_depth.
+  assert (Forall (.∈ dom (rev_g c)) ns) as Hdom' by (by rewrite rev_g_dom).
+  destruct (fanin_depth_spec (rev_g c) ns d (rev_g_closed c Hc) Hne Hdom') as [H1 H2]. split.
+  - intros Hcy. apply H1. by apply has_cycle_rev.
+  - intros Hac Hd. destruct H2 as [(u & n & Hn & Hp) Hub]; [by rewrite has_cycle_rev|done|]. split.
+    + exists u, n. split; [done|]. by apply (path_rev c).
+    + intros u' n' k Hn' Hp'. apply (Hub u' n' k Hn'). by apply (path_rev c).
+Qed.
+
+(* ---- kcuts ---- *)
+Lemma kc_step_lookup c k ord T m :
+  kc_step c k ord T !! m = (λ i, if decide (n_fi i = ∅) then [{[m]}]
+      else filter (λ s, size s ≤ k) (reduce_merge k ((λ f, default [] (T !! f)) <$> ord m)) ++ [{[m]}]) <$> c !! m.
+Proof. unfold kc_step. rewrite map_lookup_imap. by destruct (c !! m). Qed.
+(* every cut other than {n} has at most k nodes (k = 0 included) *)
+Theorem kcuts_width c n k ord cuts : kcuts c n k ord = Ok cuts → ∀ cut, cut ∈ cuts → cut = {[n]} ∨ size cut ≤ k.
+Proof.
+  unfold kcuts. destruct (negb _); [done|]. intros [= <-] cut. simpl. rewrite kc_step_lookup.
+  destruct (c !! n) as [i|]; simpl; [|by intros ?%elem_of_nil]. case_decide.
+  - intros ->%elem_of_list_singleton. by left.
+  - intros [[? _]%elem_of_list_filter| ->%elem_of_list_singleton]%elem_of_app; [by right|by left].
+Qed.
+
+Definition separates_from_sources (c : circuit) (n : string) (cut : gset string) : Prop :=
+  ∀ s l, fanin c s = ∅ → pathl c s n l → ∃ x, x ∈ cut ∧ x ∈ l.
+Lemma pathl_last_in c u v l : pathl c u v l → v ∈ l.
+Proof. induction 1; [by left|by right]. Qed.
+Lemma pathl_snoc_inv c u v l : closed c → pathl c u v l →
+  (u = v ∧ l = [u]) ∨ ∃ w l', l = l' ++ [v] ∧ pathl c u w l' ∧ w ∈ fanin c v.
+Proof.
+  intros Hc. induction 1 as [u Hu|u w0 v l Hf Hp IH]; [by left|right].
+  destruct IH as [[-> ->]|(w & l' & -> & Hp' & Hw)].
+  - exists u, [u]. split; [done|]. split; [|done]. apply pathl_nil. by eapply fanin_closed.
+  - exists w, (u :: l'). split; [done|]. split; [|done]. by eapply pathl_step.
+Qed.
+Lemma elem_of_merge k A B s : s ∈ merge k A B → ∃ a b, a ∈ A ∧ b ∈ B ∧ s = a ∪ b.
+Proof.
+  unfold merge. intros [_ H]%elem_of_list_filter. apply elem_of_list_bind in H as (a & H & Ha).
+  apply elem_of_list_bind in H as (b & H & Hb). apply elem_of_list_singleton in H. eauto.
+Qed.
+Lemma foldl_merge_sup k r : ∀ x cut, cut ∈ foldl (merge k) x r →
+  (∃ cx, cx ∈ x ∧ cx ⊆ cut) ∧ ∀ L, L ∈ r → ∃ cl, cl ∈ L ∧ cl ⊆ cut.
+Proof.
+  induction r as [|L r IH]; intros x cut Hcut; simpl in Hcut.
+  - split; [eauto|]. by intros L ?%elem_of_nil.
+  - destruct (IH _ _ Hcut) as [(cm & Hcm & Hsub) Hr]. apply elem_of_merge in Hcm as (a & b & Ha & Hb & ->). split.
+    + exists a. split; [done|]. clear -Hsub. set_solver.
+    + intros L' [->|HL']%elem_of_cons; [|by apply Hr]. exists b. split; [done|]. clear -Hsub. set_solver.
+Qed.
+Lemma reduce_merge_sup k Ls cut : cut ∈ reduce_merge k Ls → ∀ L, L ∈ Ls → ∃ cl, cl ∈ L ∧ cl ⊆ cut.
+Proof.
+  destruct Ls as [|x r]; simpl; [by intros ?%elem_of_nil|]. intros [(cx & ? & ?) Hr]%foldl_merge_sup L [->|HL]%elem_of_cons; eauto.
+Qed.
+Lemma kc_step_sep c k ord T : closed c → (∀ m, m ∈ dom c → enum_ok (ord m) (fanin c m) = true) →
+  (∀ m cuts, T !! m = Some cuts → ∀ cut, cut ∈ cuts → separates_from_sources c m cut) →
+  ∀ m cuts, kc_step c k ord T !! m = Some cuts → ∀ cut, cut ∈ cuts → separates_from_sources c m cut.
+Proof.
+  intros Hc Hord IH m cuts. rewrite kc_step_lookup. destruct (c !! m) as [i|] eqn:Hm; simpl; [|done]. intros [= <-] cut Hcut.
+  assert (separates_from_sources c m {[m]}) as Hself.
+  { intros s l _ Hp. exists m. split; [by apply elem_of_singleton|by eapply pathl_last_in]. }
+  case_decide as Hfi; [by apply elem_of_list_singleton in Hcut as ->|].
+  apply elem_of_app in Hcut as [[_ Hcut]%elem_of_list_filter|Hcut]; [|by apply elem_of_list_singleton in Hcut as ->].
+  intros s l Hs Hp. destruct (pathl_snoc_inv _ _ _ _ Hc Hp) as [[-> ->]|(w & l' & -> & Hp' & Hw)].
+  { unfold fanin in Hs. rewrite Hm in Hs. done. }
+  assert (m ∈ dom c) as Hmd by (apply elem_of_dom; eauto).
+  specialize (Hord m Hmd). unfold enum_ok in Hord. apply bool_decide_eq_true in Hord as [_ Hset].
+  assert (w ∈ ord m) as Hwo by (apply (elem_of_list_to_set (C := gset string)); by rewrite Hset).
+  destruct (reduce_merge_sup _ _ _ Hcut (default [] (T !! w))) as (cl & Hcl & Hsub).
+  { apply elem_of_list_fmap. eauto. }
+  destruct (T !! w) as [cw|] eqn:Hw'; simpl in Hcl; [|by apply elem_of_nil in Hcl].
+  destruct (IH w cw Hw' cl Hcl s l' Hs Hp') as (x & Hx & Hxl). exists x. split; [by apply Hsub|]. apply elem_of_app. by left.
+Qed.
+(* every cut meets every path from a source (a node without fan-in) to n *)
+Theorem kcuts_separates c n k ord cuts : closed c → kcuts c n k ord = Ok cuts →
+  ∀ cut, cut ∈ cuts → separates_from_sources c n cut.
+Proof.
+  intros Hc. unfold kcuts. destruct (forallb _ _) eqn:Hall; simpl; [|done]. intros [= <-] cut Hcut.
+  assert (∀ m, m ∈ dom c → enum_ok (ord m) (fanin c m) = true) as Hord.
+  { intros m Hm. rewrite forallb_forall in Hall. apply Hall. apply elem_of_list_In. by apply elem_of_elements. }
+  assert (∀ j m cuts, Nat.iter j (kc_step c k ord) ∅ !! m = Some cuts → ∀ cut, cut ∈ cuts → separates_from_sources c m cut) as Hinv.
+  { induction j as [|j IHj]; [intros m cs; simpl; by rewrite lookup_empty|]. simpl. by apply kc_step_sep. }
+  match type of Hcut with _ ∈ default [] ?o => destruct o as [cs|] eqn:E end; simpl in Hcut; [|by apply elem_of_nil in Hcut].
+  by eapply (Hinv (S (lvl (depth_table c) n))).
+Qed.
